@@ -206,30 +206,6 @@ partial def parseStmt : List String → Option (FStmt × List String)
     pure (.ret (some (e, t)), rest)
   | _ => none
 
-/-- the situation at every point (see the header); `none` entries: points behind a
-`break` / `continue` / `return` (the real checker reports "unreachable code" there).
-The facts are threaded exactly as `checkS` does; the whole result is `none` when
-`checkS` rejects. -/
-def points (loops : List LoopSpec) : Option (List Expr) → FStmt → List (Option (List Expr))
-  | fs, .skip => [fs]
-  | fs, .seq a b =>
-    let inner : List (Option (List Expr)) :=
-      match fs, a with
-      | some f, .ite c t e =>
-        points loops (some (condFacts f c)) t ++
-          (if e.isSkip then [] else points loops (invFacts f c) e)
-      | some _, .while sp c body => points (sp :: loops) (some (bodyFacts sp c)) body
-      | none, .ite _ t e => points loops none t ++ (if e.isSkip then [] else points loops none e)
-      | none, .while sp _ body => points (sp :: loops) none body
-      | _, _ => []
-    let after : Option (List Expr) :=
-      if a.endsFlow then none else
-      match fs with
-      | some f => checkS loops f a
-      | none => none
-    [fs] ++ inner ++ points loops after b
-  | fs, _ => [fs]
-
 def showFacts (fs : List Expr) : String :=
   toString fs.length ++ String.join (fs.map fun f => " " ++ showExpr f)
 
